@@ -192,12 +192,13 @@ class CellCycleController:
             raise ValueError(f"Unknown resource: {resource_id}")
 
         lock = self.resources[resource_id]
+        previous_owner = lock.owner
         result = lock.try_acquire(owner=ctx.operation_id, priority=ctx.priority)
 
         if result == LockResult.ACQUIRED or result == LockResult.REENTRANT:
             ctx.add_acquired_resource(lock)
-            # Remove any dependency since we now own it
-            self.dependency_graph.remove_all_for_agent(ctx.operation_id)
+            # We no longer wait for this resource (others may still wait on us)
+            self.dependency_graph.remove_wait(ctx.operation_id, resource_id)
 
         elif result == LockResult.BLOCKED:
             # Add to dependency graph
@@ -209,8 +210,8 @@ class CellCycleController:
 
         elif result == LockResult.PREEMPTED:
             ctx.add_acquired_resource(lock)
-            # Clear old dependencies
-            self.dependency_graph.remove_all_for_agent(ctx.operation_id)
+            # Waiters of the preempted owner now wait on us
+            self.dependency_graph.retarget(resource_id, previous_owner, ctx.operation_id)
 
         return result
 
@@ -225,7 +226,7 @@ class CellCycleController:
         if released and lock.owner != ctx.operation_id:
             # Fully released (re-entrant holds need one release per acquisition)
             del ctx.acquired_resources[resource_id]
-            self.dependency_graph.remove_all_for_agent(ctx.operation_id)
+            self.dependency_graph.remove_resource(resource_id)
 
         return released
 
@@ -248,6 +249,7 @@ class CellCycleController:
         Releases all resources and cleans up.
         """
         self.release_all_resources(ctx)
+        self.dependency_graph.remove_all_for_agent(ctx.operation_id)
         ctx.enter_phase(Phase.G0)
 
         if ctx.operation_id in self.active_operations:
@@ -274,6 +276,7 @@ class CellCycleController:
         Releases all resources and cleans up.
         """
         self.release_all_resources(ctx)
+        self.dependency_graph.remove_all_for_agent(ctx.operation_id)
         ctx.enter_phase(Phase.G0)
 
         if ctx.operation_id in self.active_operations:
